@@ -401,7 +401,7 @@ def run(ctx):
         ctx.count('ts-exact', len(ts_exact), [tuple(x) for x in ts_exact])
 
     # ------------------------------------------------------------------ lexical space of the numeric converters
-    def lex_oracle(kind, s, res, pattern, value_of):
+    def lex_oracle(kind, s, res, pattern, value_of, want=lambda s: Fraction(s.strip(' \t\r\n'))):
         """accepted iff in the lexical space; accepted => the exact value"""
         ok = pattern.match(s) is not None
         if is_err(res):
@@ -414,7 +414,7 @@ def run(ctx):
                      {'stream': 'lexical', 'type': kind}, {'stream': f'{kind}-lex', 'case': {'xml': s}, 'impl_trace': res,
                                                            'oracle': {'verdict': 'fail', 'clause': 'non-lexical forms are rejected'}})
             return
-        if value_of(res) != Fraction(s.strip(' \t\r\n')):
+        if value_of(res) != want(s):
             ctx.fail(f'{kind}: {s!r} is converted to a different value {res!r}', {'stream': 'lexical', 'type': kind, 'clause': 'value'},
                      {'stream': f'{kind}-lex', 'case': {'xml': s}, 'impl_trace': res})
 
@@ -424,7 +424,8 @@ def run(ctx):
 
     cases = []
     for s, r in zip(ts_lex, impl['ts_lex']):
-        lex_oracle('timestamp', s, r, XSD_INT, lambda r: Fraction(r[0]) * Fraction(2) ** r[1] if False else Fraction(int(s)))
+        # the float nearest to n / 1000 (int / int true division is correctly rounded)
+        lex_oracle('timestamp', s, r, XSD_INT, lambda r: Fraction(r[0]) * Fraction(2) ** r[1], lambda s: Fraction(int(s) / 1000))
         cases.append((slit(s), 'None' if is_err(r) else fr_lit(r)))
     corr('ts-lex', 'option_eqb fr_eqb', 'ts_to_py_str', cases, lambda i: {'xml': ts_lex[i], 'impl': impl['ts_lex'][i]})
     ctx.count('ts-lex', len(ts_lex), ts_lex, rejected=sum(1 for r in impl['ts_lex'] if is_err(r)))
